@@ -44,7 +44,7 @@ def classes():
 
     class C09Sub(C09Mid):             # only this class of the hierarchy overrides the change handler
       def _on_change(self, field_updates):
-        LOG.append((OBJ_IDS.get(id(self)), field_updates))
+        on_event(OBJ_IDS.get(id(self)), field_updates)
         return super()._on_change(field_updates)
 
       def _on_bound(self):
@@ -75,7 +75,7 @@ def classes():
 
     class C09InnerSub(C09Inner):      # typed objects that override the handlers
       def _on_change(self, field_updates):
-        LOG.append((OBJ_IDS.get(id(self)), field_updates))
+        on_event(OBJ_IDS.get(id(self)), field_updates)
         return super()._on_change(field_updates)
 
       def _on_bound(self):
@@ -84,7 +84,7 @@ def classes():
 
     class C09DefSub(C09Def):
       def _on_change(self, field_updates):
-        LOG.append((OBJ_IDS.get(id(self)), field_updates))
+        on_event(OBJ_IDS.get(id(self)), field_updates)
         return super()._on_change(field_updates)
 
       def _on_bound(self):
@@ -337,7 +337,7 @@ def build(t):
   nid = t.get('id', 0)
   cb = None
   if t.get('sub') and t['k'] != 'obj':
-    cb = lambda updates, _id=nid: LOG.append((_id, updates))
+    cb = lambda updates, _id=nid: on_event(_id, updates)
   if t['k'] == 'list':
     v = pg.List([build(c) for _, c in t['items']], onchange_callback=cb)
   elif t['k'] == 'dict':
@@ -580,11 +580,34 @@ def do_call(node, c):
 
 
 def canon_log(log):
-  out = []
-  for rid, updates in log:
-    out.append({'recv': rid, 'entries': [[list(k.keys), canon(u.old_value), canon(u.new_value)]
-                                         for k, u in updates.items()]})
-  return out
+  return [{'recv': e['recv'], 'entries': e['entries']} for e in log]
+
+
+# Re-entrant handlers: what the handler of a node does when it is told about a change.
+REACT = {}        # node id -> {'recv': path from the root, 'call': call}
+RSTATE = {'root': None, 'fuel': 0, 'depth': 0, 'stack': [0], 'next': 1, 'calls': []}
+
+
+def on_event(rid, updates):
+  """Every handler of the harness: log the event (canonicalised at once, tagged with the call it
+  belongs to), then -- if the case says so and the nesting bound is not reached -- issue the nested call."""
+  LOG.append({'recv': rid, 'call': RSTATE['stack'][-1],
+              'entries': [[list(k.keys), canon(u.old_value), canon(u.new_value)] for k, u in updates.items()]})
+  r = REACT.get(rid)
+  if r is None or RSTATE['depth'] >= RSTATE['fuel']:
+    return
+  cid = RSTATE['next']
+  RSTATE['next'] += 1
+  RSTATE['depth'] += 1
+  RSTATE['stack'].append(cid)
+  rec = {'id': cid, 'parent': RSTATE['stack'][-2], 'by': rid, 'recv': r['recv'], 'call': r['call'],
+         'pre': canon(RSTATE['root'])}
+  RSTATE['calls'].append(rec)
+  try:
+    do_call(navigate(RSTATE['root'], r['recv']), r['call'])
+  finally:
+    RSTATE['stack'].pop()
+    RSTATE['depth'] -= 1
 
 
 # ------------------------------------------------------------------------------------------
@@ -870,6 +893,8 @@ class C09(Prop):
       yield c
     for c in self.silent_delete_cases(rng, 300 if tier == 'quick' else 6000):
       yield c
+    for c in self.reentrant_cases(rng, 400 if tier == 'quick' else 8000):
+      yield c
     for c in self.facts_cases(rng, 150 if tier == 'quick' else 3000):
       yield c
     for c in self.detached_cases(rng, 200 if tier == 'quick' else 4000):
@@ -1055,6 +1080,73 @@ class C09(Prop):
         made += 1
         yield {'tree': t, 'steps': steps}
 
+  def reentrant_cases(self, rng, n):
+    """Handlers that mutate during notification: some subscribing nodes react to every event they
+    receive with a call of their own -- on themselves, on a descendant, on an ancestor or elsewhere --
+    up to a nesting depth `fuel`. All writes (outer and nested) put atoms at leaf locations, so the
+    subscribers stay where they are."""
+    g = Gen(rng)
+    def atom_locs(node, path=()):
+      out = []
+      for p_, x in all_nodes(node):
+        for k, c in x['items']:
+          if not is_node(c):
+            out.append(list(p_) + [k])
+        if x['k'] == 'dict':
+          out.append(list(p_) + [rng.choice(['r1', 'r2'])])
+      return out
+    made = 0
+    for _ in range(n * 5):
+      if made >= n:
+        break
+      g.next_id = 1
+      g.no_obj = rng.chance(0.4)
+      g.deletes = False
+      t = g.tree(rng.randint(2, 3), None, rng.choice([0.7, 1.0]))
+      nodes = all_nodes(t)
+      subs = [(p_, x) for p_, x in nodes if x['sub']]
+      locs = atom_locs(t)
+      if not subs or not locs:
+        continue
+      react = []
+      for p_, x in rng.sample(subs, rng.randint(1, min(3, len(subs)))):
+        how = rng.below(4)
+        if how == 0:
+          cands = [l for l in locs if l[:-1] == list(p_)]                         # on itself
+        elif how == 1:
+          cands = [l for l in locs if l[:len(p_)] == list(p_) and len(l) > len(p_) + 1]   # on a descendant
+        elif how == 2:
+          cands = [l for l in locs if list(p_)[:len(l) - 1] == l[:-1] and len(l) - 1 < len(p_)]   # on an ancestor
+        else:
+          cands = locs
+        if not cands:
+          cands = locs
+        loc = rng.choice(cands)
+        if rng.chance(0.7):
+          call = {'name': 'setkey', 'key': loc[-1], 'v': g.atom()}
+          rrecv = loc[:-1]
+        else:
+          cut = rng.randint(0, len(loc) - 1)
+          rrecv, call = loc[:cut], {'name': 'rebind', 'pairs': [[loc[cut:], g.atom()]]}
+        react.append([x['id'], rrecv, call])
+      steps = []
+      for _ in range(rng.randint(1, 3)):
+        loc = rng.choice(locs)
+        if rng.chance(0.5):
+          step = {'recv': loc[:-1], 'notify': rng.chance(0.9), 'call': {'name': 'setkey', 'key': loc[-1], 'v': g.atom()}}
+        else:
+          cut = rng.randint(0, len(loc) - 1)
+          pairs = [[loc[cut:], g.atom()]]
+          for l2 in rng.sample(locs, min(2, len(locs))):
+            if l2[:cut] == loc[:cut] and all(l2[cut:] != p_ for p_, _ in pairs) and rng.chance(0.5):
+              pairs.append([l2[cut:], g.atom()])
+          if get_at(t, loc[:cut])['k'] == 'list':
+            pairs.sort(key=lambda pv: key_cmp_tuple(pv[0]))
+          step = {'recv': loc[:cut], 'notify': rng.chance(0.9), 'call': {'name': 'rebind', 'pairs': pairs}}
+        steps.append(step)
+      made += 1
+      yield {'tree': t, 'steps': steps, 'react': react, 'fuel': rng.choice([1, 1, 2, 3])}
+
   def facts_cases(self, rng, n):
     g = Gen(rng)
     for _ in range(n):
@@ -1151,6 +1243,9 @@ class C09(Prop):
         s_['notify'] = False                       # rebind(skip_notification=True): nobody is notified
       steps.append(s_)
     req = {'op': 'run', 'tree': annotate(case['tree']), 'steps': steps}
+    if case.get('react'):
+      req['react'] = [[rid, rpath, rcall] for rid, rpath, rcall in case['react']]
+      req['fuel'] = case.get('fuel', 0)
     if case.get('reads') == 'chosen':
       req['reads'] = 'chosen'
     return req
@@ -1162,6 +1257,10 @@ class C09(Prop):
     del LOG[:]
     OBJ_IDS.clear()
     root = build(case['tree'])
+    REACT.clear()
+    for rid, rpath, rcall in case.get('react', []):
+      REACT[rid] = {'recv': rpath, 'call': rcall}
+    RSTATE.update(root=root, fuel=case.get('fuel', 0), depth=0)
     chosen = case.get('reads') == 'chosen'
     if not chosen:
       read_all(root)
@@ -1171,6 +1270,7 @@ class C09(Prop):
       pre = canon(root)
       del LOG[:]
       del BOUND[:]
+      RSTATE.update(depth=0, stack=[0], next=1, calls=[])
       if 'read' in step:
         outs.append(self.impl_read(case, root, step, pre))
         continue
@@ -1188,10 +1288,12 @@ class C09(Prop):
           ok = False
           err = type(e).__name__
       events = canon_log(LOG)
+      tagged = [dict(e) for e in LOG]
+      nested = list(RSTATE['calls'])
       bound = list(BOUND)
       if chosen:
         outs.append({'ok': ok, 'err': err, 'events': events, 'reads': [], 'value': canon(root), 'pre': pre, 'stale': [],
-                     'bound': bound})
+                     'bound': bound, 'tagged': tagged, 'nested': nested})
         continue
       got = read_all(root)
       placeholders = has_placeholder(root)
@@ -1208,7 +1310,8 @@ class C09(Prop):
             stale.append([p, bad])
       with_reads = not case.get('facts_only')
       outs.append({'ok': ok, 'err': err, 'events': events, 'reads': leafmap_reads(root) if with_reads else [],
-                   'value': canon(root), 'pre': pre, 'stale': stale, 'bound': bound})
+                   'value': canon(root), 'pre': pre, 'stale': stale, 'bound': bound, 'tagged': tagged,
+                   'nested': nested})
     model = {'steps': [{'ok': o['ok'], 'events': o['events'], 'reads': o['reads'], 'value': o['value']} for o in outs]}
     return {'model': model, 'steps': outs}
 
@@ -1270,6 +1373,11 @@ class C09(Prop):
                                         json.dumps(last['call'])[:160] if last else 'construction', o['stale'][:3])}
         continue
       last = step
+      if case.get('react'):
+        f = self.oracle_react(case, step, o)
+        if f:
+          return f
+        continue
       f = self.oracle_step(case, tree, step, o)
       if f:
         return f
@@ -1400,6 +1508,62 @@ class C09(Prop):
         return {'signature': 'unreported-change', 'what': 'location %s changed but was not written by the call' % c}
     return self.oracle_order(events, sub_nodes)
 
+  def oracle_react(self, case, step, o):
+    """Re-entrant handlers: every call of the nesting -- the outer one and each call issued by a
+    handler -- is judged on its own: each subscribing ancestor-or-self of what THAT call wrote gets
+    exactly one event of it (the node whose handler issued the call included), with exactly the
+    locations below it and their old / new values, children before parents; nobody else hears of it."""
+    subs = {n['id']: p for p, n in all_nodes(case['tree']) if n['sub']}
+    tagged = o.get('tagged', [])
+    if not step['notify'] or not o['ok']:
+      if tagged:
+        return {'signature': 'event-while-silent:' + step['call']['name'],
+                'what': 'events %s delivered although notification is disabled / the call failed' % tagged[:2]}
+      return None
+    calls = [{'id': 0, 'recv': step['recv'], 'call': step['call'], 'pre': o['pre'], 'by': None}] + o.get('nested', [])
+    known = {c['id'] for c in calls}
+    for e in tagged:
+      if e['call'] not in known or e['recv'] not in subs:
+        return {'signature': 'event-to-stranger', 'what': 'event %s belongs to no call / receiver of the case' % e}
+    for c in calls:
+      tag = 'nested-' if c['id'] else ''
+      cc = c['call']
+      if cc['name'] == 'setkey':
+        writes = [(c['recv'] + [cc['key']], cc['v'])]
+      else:
+        writes = [(c['recv'] + p_, v_) for p_, v_ in cc['pairs']]
+      really = [(l, canon_at(c['pre'], l), v) for l, v in writes if canon_at(c['pre'], l) != v]
+      mine = [e for e in tagged if e['call'] == c['id']]
+      ids = [e['recv'] for e in mine]
+      if len(set(ids)) != len(ids):
+        return {'signature': tag + 'duplicate-event', 'what': 'call %s (issued by the handler of %s): receivers %s' % (
+            json.dumps(cc)[:100], c['by'], ids)}
+      for nid, rp in subs.items():
+        below = [(l, a, b) for l, a, b in really if l[:len(rp)] == rp and len(l) > len(rp)]
+        got = [e for e in mine if e['recv'] == nid]
+        if below and not got:
+          return {'signature': tag + 'missing-event',
+                  'what': 'the call %s at %s%s wrote %s below the subscribing node %s at %s, which got no event for it' % (
+                      json.dumps(cc)[:100], c['recv'], ' (issued by the handler of node %s)' % c['by'] if c['id'] else '',
+                      [l for l, _, _ in below], nid, rp)}
+        if got:
+          want = sorted(json.dumps([l[len(rp):], a, b]) for l, a, b in below)
+          if sorted(json.dumps(x) for x in got[0]['entries']) != want:
+            return {'signature': tag + ('wrong-payload' if below else 'event-to-bystander'),
+                    'what': 'call %s at %s: node %s at %s was told %s, expected %s' % (
+                        json.dumps(cc)[:100], c['recv'], nid, rp, got[0]['entries'], want)}
+      pos = {e['recv']: i for i, e in enumerate(mine)}
+      for a in pos:
+        for b in pos:
+          pa, pb = subs[a], subs[b]
+          if len(pb) > len(pa) and pb[:len(pa)] == pa and pos[b] > pos[a]:
+            return {'signature': tag + 'parent-before-child', 'what': 'call %s: %s before %s' % (json.dumps(cc)[:80], a, b)}
+    objs = {n['id'] for _, n in all_nodes(case['tree']) if n['sub'] and n['k'] not in ('dict', 'list')}
+    want = sorted(e['recv'] for e in tagged if e['recv'] in objs)
+    if sorted(o.get('bound', [])) != want:
+      return {'signature': 'on-bound-count', 'what': 'events to objects %s, _on_bound ran for %s' % (want, sorted(o.get('bound', [])))}
+    return None
+
   def oracle_order(self, events, sub_nodes):
     # order: a receiver after all receivers below it
     pos = {e['recv']: i for i, e in enumerate(events)}
@@ -1512,6 +1676,10 @@ class C09(Prop):
     h = ['steps:%d' % len(case['steps']), 'stream:' + ('facts' if case.get('facts_only') else 'modelled')]
     if case.get('reads') == 'chosen':
       h.append('reads:chosen')
+    if case.get('react'):
+      h.append('re-entrant handlers: fuel %d' % case.get('fuel', 0))
+      for o in out['steps']:
+        h.append('nested-calls:%d' % min(len(o.get('nested', [])), 6))
     for s, o in zip(case['steps'], out['steps']):
       if 'read' in s:
         h.append('op:read')
